@@ -8,8 +8,13 @@ for m in sorted(glob.glob('/verif/seeded/*/meta.json')):
   d = json.load(open(m)); v = d.get('verified', {})
   caught = ['%s (%s)' % (k, (x.get('kind') or '').replace('violation kind=', '').split(' found-by=')[0])
             for k, x in v.get('checks', {}).items() if x['exit'] == 1]
-  rows.append((name, d.get('title', '').replace('|', '/'), ', '.join(caught) or '**missed**',
-               strengthened.get(name, '')))
+  note = strengthened.get(name, '')
+  verdict = ', '.join(caught) or '**missed**'
+  if not caught and v.get('confirmed') is False:
+    verdict = 'does not manifest on the current tree'
+  elif not caught and 'not claimed' in note:
+    verdict = '**not caught** (not claimed, see note)'
+  rows.append((name, d.get('title', '').replace('|', '/'), verdict, note))
 print('| seed | change (independently written) | caught by (violation kind) | note |')
 print('|---|---|---|---|')
 for r in rows:
